@@ -127,4 +127,20 @@ impl VGossip {
     pub async fn dial(&self, ctx: &ctx::Ctx, peer: &node::PublicKey, addr: std::net::SocketAddr) -> Result<(), String> {
         self.0.run_outbound_stream(ctx, peer, net::Host(addr.to_string())).await.map_err(|e| format!("{e:#}"))
     }
+    /// `Network::run_block_fetcher` (runs until `ctx` is cancelled).
+    pub async fn run_block_fetcher(&self, ctx: &ctx::Ctx) {
+        self.0.run_block_fetcher(ctx).await
+    }
+    /// Blocks currently waiting in the fetch queue for a peer connection to take them.
+    pub fn fetch_requested(&self) -> Vec<u64> {
+        self.0.fetch_queue.current_blocks()
+    }
+    /// `validator_addrs.update` on this node's address book.
+    pub async fn addrs_update(&self, validators: &validator::Schedule, data: &[Arc<validator::Signed<validator::NetAddress>>]) -> Result<(), String> {
+        self.0.validator_addrs.update(validators, data).await.map_err(|e| format!("{e:#}"))
+    }
+    /// Snapshot of this node's address book.
+    pub fn addrs_current(&self) -> BTreeMap<validator::PublicKey, Arc<validator::Signed<validator::NetAddress>>> {
+        self.0.validator_addrs.current().into_iter().collect()
+    }
 }
